@@ -189,6 +189,18 @@ func init() {
 		s.Faults = Faults{WriteBlock: true}
 		return s
 	})
+	// Close after a connect attempt that got as far as the retransmission: the
+	// connection of that attempt is the client's to close
+	register("shutdown6", func() *Scenario {
+		s := mkShutdown([]ActorSpec{{Name: "X", Ops: []Op{{Kind: "close"}}}}, false)()
+		s.Actors = []ActorSpec{
+			{Name: "reader", Reader: &ReaderSpec{Backoff: true}},
+			{Name: "P", Ops: []Op{{Kind: "pub2", Topic: "s/p", Msg: []byte("P-payload")}, {Kind: "pub1", Topic: "s/q", Msg: []byte("Q-payload")}}},
+			{Name: "X", Ops: []Op{{Kind: "close"}}},
+		}
+		s.Faults = Faults{NoResponse: true, Cut: true, WriteCuts: cutsEdge, WriteErr: true, WriteTimeout: true}
+		return s
+	})
 	register("shutdown3", mkShutdown([]ActorSpec{{Name: "X", Ops: []Op{{Kind: "disc", Quit: quitLater}}}, {Name: "Y", Ops: []Op{{Kind: "disc", Quit: quitClosed}}}, {Name: "Z", Ops: []Op{{Kind: "close"}}}}, true))
 }
 
